@@ -671,7 +671,7 @@ def ser_render_step(case, step, which="analysis"):
         L.b(pretty), SL(step["cols"]), rows_lit(step["rows"]), SL(step["stamp"]), SL(pre_lines(step["text"], pretty)),
         SL(step["text"]),
         wl_lit(step["load"]), L.b(is_nfc(step["cols"], step["rows"])), lexp,
-        L.b(case["type"] == "lexstat"), an, msa, re_an])
+        L.b(case["type"] in ("lexstat", "alignments")), an, msa, re_an])
 
 
 class _Ser:
